@@ -223,14 +223,14 @@ Clear(i) ==
     /\ ret' = 0 /\ NoAlloc
     /\ UNCHANGED <<nextH, mode>>
 
-(* ~suspend_point() :97-99 (also with _count_flag = 1).  Does not consume the step budget. *)
+(* ~suspend_point() :97-99 (also with _count_flag = 1) *)
 Destroy(i) ==
-    /\ ~done /\ "Destroy" \in Ops /\ sp[i].live
+    /\ Tick("Destroy") /\ sp[i].live
     /\ Emit(sp[i].h)
     /\ sp' = [sp EXCEPT ![i] = Dead]
     /\ blocks' = blocks - B2N(sp[i].heap)
     /\ ret' = 0 /\ NoAlloc
-    /\ UNCHANGED <<nextH, mode, steps, done>>
+    /\ UNCHANGED <<nextH, mode>>
 
 (* co_await sp[i] from the driver coroutine: await_ready :148; await_suspend :167-191: out = pop(),
    the rest is queued in array order, then the driver itself; `out` is resumed by symmetric transfer,
@@ -262,17 +262,21 @@ Pause ==
     /\ ret' = 0 /\ NoAlloc
     /\ UNCHANGED <<sp, nextH, mode, blocks>>
 
-(* the driver coroutine returns: flush_queue (coro_queue.h:63-70) drains the queue and the queue
-   is uninstalled (:105-108) *)
+(* the driver coroutine leaves its scope and returns: the objects still alive are destroyed in slot
+   order (each like Destroy), then flush_queue (coro_queue.h:63-70) drains the queue and the queue is
+   uninstalled (:105-108).  Always enabled: every history can be closed. *)
+Leftover == LET S[k \in 0..MaxObj] == IF k = 0 THEN <<>> ELSE S[k - 1] \o sp[k].h IN S[MaxObj]
 Finish ==
-    /\ ~done /\ \A k \in Slots : ~sp[k].live
-    /\ burst' = queue
-    /\ resumed' = Bump(resumed, queue)
+    /\ ~done
+    /\ burst' = queue \o Leftover      \* normal mode: queue = <<>>, resumed by the destructors
+    /\ resumed' = Bump(resumed, burst')
     /\ queue' = <<>>
+    /\ sp' = [k \in Slots |-> Dead]
+    /\ blocks' = blocks - Cardinality({k \in Slots : sp[k].live /\ sp[k].heap})
     /\ mode' = "normal"
     /\ done' = TRUE
     /\ ret' = 0 /\ NoAlloc
-    /\ UNCHANGED <<sp, nextH, blocks, steps>>
+    /\ UNCHANGED <<nextH, steps>>
 
 (* consecutive operator<<(coroutine_handle<>&&) until the object holds n handles: a macro step over
    every boundary on the way (the replayer executes the single calls, the state is compared at the end) *)
